@@ -37,6 +37,8 @@ type Arg struct {
 	Name string
 	Use  ArgUse
 	Type *xtype.Type
+	// Variadic is true for the final ...T parameter, Type is []T then.
+	Variadic bool
 }
 
 type ArgUse string
